@@ -36,9 +36,12 @@ def main():
     meta["tests_with_change"] = o.strip()
     ok_tests = "137 passed; 0 failed" in o
     # 2. demonstration fails with the change, passes without
-    rc_with, _ = sh("sh demo.sh", cwd=wt, env=env, timeout=900)
+    binp = os.path.join(wt, "target", "debug", "fselect")
+    sh("cargo build --offline", cwd=wt, env=env)
+    rc_with, _ = sh("bash demo.sh %s" % binp, cwd=wt, env=env, timeout=900)
     sh("git stash", cwd=wt)
-    rc_without, _ = sh("sh demo.sh", cwd=wt, env=env, timeout=900)
+    sh("cargo build --offline", cwd=wt, env=env)
+    rc_without, _ = sh("bash demo.sh %s" % binp, cwd=wt, env=env, timeout=900)
     sh("git stash pop", cwd=wt)
     meta["demo_exit_with_change"] = rc_with
     meta["demo_exit_without_change"] = rc_without
